@@ -424,5 +424,5 @@ STD_ENUMS = {
     'std::path::Component': [('Prefix', 0), ('RootDir', 1), ('CurDir', 2), ('ParentDir', 3), ('Normal', 4)],
     'serde_json::Value': [('Null', 0), ('Bool', 1), ('Number', 2), ('String', 3), ('Array', 4), ('Object', 5)],
     'serde_json::value::Value': [('Null', 0), ('Bool', 1), ('Number', 2), ('String', 3), ('Array', 4), ('Object', 5)],
-    'std::io::ErrorKind': [('NotFound', 0), ('PermissionDenied', 1), ('Other', 39)],
+    'std::io::ErrorKind': [('NotFound', 0), ('PermissionDenied', 1), ('AlreadyExists', 12), ('Other', 39)],
 }
